@@ -9,6 +9,7 @@ package main
 // the rules it owns.
 
 import (
+	"sort"
 	"fmt"
 	"go/ast"
 	"strings"
@@ -58,6 +59,12 @@ func diskFlowObligs(c *Ctx) []*Oblig {
 	}
 	d := &diskFlow{c: c, obs: map[string]*Oblig{}, cnt: map[string]int{}}
 	d.base = NewBase(Hooks{Call: d.call, Cond: d.cond, Assign: d.assign, Exit: d.exit}, kCommit, kAvail)
+	// helpers of the disk cache that (transitively) reserve, release, create, commit or talk to
+	// the backend are interpreted in the context of their callers, whatever they are called:
+	// extracting a few statements of Put or get into a method must not blind the rules
+	for _, k := range diskHelpersToInline(c) {
+		d.base.Inline[k] = true
+	}
 	var out []*Oblig
 	for _, key := range []string{kPut, kGet, kAvail} {
 		fi := c.P.Func(key)
@@ -569,4 +576,56 @@ func roleIdent(x *Exec, name string, roles ...string) ast.Expr {
 		}
 	}
 	return identNamed(x, name)
+}
+
+
+// diskHelpersToInline returns the unexported functions and methods of
+// cache/disk, other than the explored entry points and the callees the rules
+// model by a summary, from which one of the tracked primitives is reachable.
+func diskHelpersToInline(c *Ctx) []string {
+	prims := map[string]bool{kReserve: true, kUnreserve: true, kCreate: true, kCommit: true, kAdd: true,
+		"cache.(Proxy).Get": true, "cache.(Proxy).Put": true, "disk.(*diskCache).writeAndCloseFile": true}
+	skip := map[string]bool{kPut: true, kGet: true, kAvail: true, kCommit: true, "disk.(*diskCache).writeAndCloseFile": true,
+		"disk.(*diskCache).loadExistingFiles": true, "disk.New": true}
+	calls := map[string][]string{}
+	var fns []*FuncInfo
+	for _, fi := range c.P.FuncsInPkg("/cache/disk") {
+		if strings.HasSuffix(c.P.Fset.Position(fi.Decl.Pos()).Filename, "_test.go") || fi.Decl.Body == nil {
+			continue
+		}
+		fns = append(fns, fi)
+		for _, call := range callsIn(fi.Decl.Body, true) {
+			if k := calleeKey(fi.Pkg.TypesInfo, call); k != "" {
+				calls[fi.Key] = append(calls[fi.Key], k)
+			}
+		}
+	}
+	reaches := map[string]bool{}
+	for changed := true; changed; {
+		changed = false
+		for _, fi := range fns {
+			if reaches[fi.Key] {
+				continue
+			}
+			for _, k := range calls[fi.Key] {
+				if prims[k] || reaches[k] {
+					reaches[fi.Key] = true
+					changed = true
+					break
+				}
+			}
+		}
+	}
+	var out []string
+	for _, fi := range fns {
+		if !reaches[fi.Key] || skip[fi.Key] || strings.HasPrefix(fi.Key, "disk.(*SizedLRU).") || strings.HasPrefix(fi.Key, "disk.(*metricsDecorator).") {
+			continue
+		}
+		if fi.Obj.Exported() {
+			continue // entry points of the Cache interface call get/Put, not the other way round
+		}
+		out = append(out, fi.Key)
+	}
+	sort.Strings(out)
+	return out
 }
